@@ -593,7 +593,63 @@ def enum_shard(shard):
     return out
 
 
+def fresh_op(op):
+    '''One (listing, crash point) in a reader process that has not parsed
+    anything yet.'''
+    idx, cut = op
+    _STATE.pop('memo', None)
+    _STATE.pop('wdir', None)
+    stats = {}
+    try:
+        viol, outcome = eval_op_guarded(idx, cut, stats)
+    finally:
+        wdir = _STATE.get('wdir')
+        if wdir and _STATE.get('wdir_pid') == os.getpid():
+            shutil.rmtree(wdir, ignore_errors=True)
+    return viol, outcome, stats
+
+
+def fresh_phase(tier, seed):
+    '''Crash points evaluated each in a process of its own, forked from this
+    (so far parse-free) process: the first thing a reader does.'''
+    rng = random.Random(driver.mix(seed, 0xF4E5))
+    items = corpus()
+    ops = []
+    per = 4 if tier == 'quick' else 40
+    for idx in active_items():
+        item = items[idx]
+        size = len(item['data'])
+        endflag, offs = key_offsets(item)
+        cuts = {size}
+        if endflag:
+            cuts.add(min(size, max(endflag) + 1))
+        pool = endflag + offs
+        while len(cuts) < per:
+            cuts.add(rng.choice(pool) if pool and rng.random() < 0.6
+                     else rng.randrange(size + 1))
+        ops.extend((idx, cut) for cut in sorted(cuts))
+    results = driver.fork_each(fresh_op, ops, wall=OP_WATCHDOG + 60)
+    out = {'evaluations': len(ops), 'violations': {}, 'stats': {},
+           'outcomes': {}}
+    for (idx, cut), (viol, outcome, stats) in zip(ops, results):
+        okey = outcome if len(outcome) < 40 else 'many-editions'
+        out['outcomes'][okey] = out['outcomes'].get(okey, 0) + 1
+        for key, val in stats.items():
+            out['stats'][key] = out['stats'].get(key, 0) + val
+        for cls, sig, detail in viol:
+            lst = out['violations'].setdefault(sig, [])
+            if len(lst) < 2:
+                lst.append({'class': cls, 'signature': sig,
+                            'detail': dict(detail, fresh_process=True),
+                            'scenario': {'kind': 'listings',
+                                         'ops': [[items[idx]['name'], cut]]},
+                            'preempts': [], 'digest': None, 'seed': seed,
+                            'run_no': -1, 'policy': 'fresh-process'})
+    return out
+
+
 def enumeration(tier, seed):
+    fresh = fresh_phase(tier, seed)
     rng = random.Random(driver.mix(seed, 0xE11))
     items = corpus()
     shards = []
@@ -624,7 +680,7 @@ def enumeration(tier, seed):
                                 else 5 * 3600)
     out = {'evaluations': 0, 'violations': {}, 'distinct': 0}
     stats, outcomes = {}, {}
-    for part in results:
+    for part in results + [fresh]:
         out['evaluations'] += part['evaluations']
         for key, val in part['stats'].items():
             stats[key] = stats.get(key, 0) + val
@@ -637,6 +693,8 @@ def enumeration(tier, seed):
     out['coverage'] = {
         'crash_points_enumerated': out['evaluations'],
         'crash_points_per_listing': plan,
+        'crash_points_in_fresh_processes': fresh['evaluations'],
+        'fresh_process_outcomes': fresh['outcomes'],
         'corpus_listings': len(active_items()),
         'corpus_bytes': total_bytes,
         'synthetic_listings_dropped_by_validation': _STATE.get('dropped', []),
